@@ -111,26 +111,43 @@ pub fn read_available(s: &mut TcpStream, first_ms: u64, quiet_ms: u64) -> (Vec<u
 /// "w" = wait for the server's answer to what was sent so far, "i" = stay idle longer than the timeout.
 /// Returns (all bytes received, server closed before the client's own half-close)
 pub fn play(port: u16, plan: &str) -> (Vec<u8>, bool) {
+    let (got, closed, _) = play_gap(port, plan);
+    (got, closed)
+}
+
+/// as `play`; also returns the longest time (ms) this client let pass, outside an "i" item, between receiving an answer and
+/// its own next action (next write or the final half-close). On a loaded machine that can reach the server's connection
+/// timeout, and the 408 the server then writes is the correct answer to a wait that really was that long.
+pub fn play_gap(port: u16, plan: &str) -> (Vec<u8>, bool, u128) {
     let mut s = TcpStream::connect(("127.0.0.1", port)).unwrap();
     s.set_nodelay(true).unwrap();
     let mut got = Vec::new();
     let mut closed = false;
+    let mut answered_at: Option<Instant> = None;
+    let mut gap: u128 = 0;
     for item in plan.split(',') {
         match item {
             "" | "-" => {}
             "p" => std::thread::sleep(Duration::from_millis(4)),
             "w" => {
                 let (b, eof) = read_available(&mut s, 1500, 40);
+                if !b.is_empty() {
+                    answered_at = Some(Instant::now());
+                }
                 got.extend(b);
                 closed |= eof;
             }
             "i" => {
+                answered_at = None; // a deliberate idle period: the 408 is expected by the plan itself
                 std::thread::sleep(Duration::from_millis(TIMEOUT_MS + 200));
                 let (b, eof) = read_available(&mut s, 300, 40);
                 got.extend(b);
                 closed |= eof;
             }
             seg => {
+                if let Some(t) = answered_at.take() {
+                    gap = gap.max(t.elapsed().as_millis());
+                }
                 if s.write_all(&unhex(seg)).is_err() {
                     closed = true;
                 }
@@ -142,18 +159,21 @@ pub fn play(port: u16, plan: &str) -> (Vec<u8>, bool) {
     got.extend(b);
     closed |= eof;
     let closed_by_server = closed;
+    if let Some(t) = answered_at.take() {
+        gap = gap.max(t.elapsed().as_millis());
+    }
     let _ = s.shutdown(Shutdown::Write);
     let (b, _) = read_available(&mut s, 1500, 60);
     got.extend(b);
-    (got, closed_by_server)
+    (got, closed_by_server, gap)
 }
 
 pub fn dispatch(name: &str, args: &[&str]) -> Option<String> {
     match name {
         "conn" => {
             let port = server();
-            let (got, closed) = play(port, args[0]);
-            Some(format!("out={} closed={}", hex(&got), closed as u8))
+            let (got, closed, gap) = play_gap(port, args[0]);
+            Some(format!("out={} gap={} closed={}", hex(&got), gap, closed as u8))
         }
         // survive <k>: k connections are open and have been served once (keep-alive); a further connection makes a handler
         // panic; every one of the k connections must still be served afterwards ("a panicking handler costs only its own
